@@ -753,6 +753,7 @@ structure Inv (W : World) (ver : Nat) (s : State) (seen : List Ref) (skip : Opti
   j4c : ∀ b, stOf W s.rows b ≠ .absent → firstMissing W s.src b = none
   j4d : ∀ b t, stOf W s.rows b = .full → idep W b = some t → stOf W s.rows t ≠ .absent
   s1 : ∀ b, stOf W s.rows b ≠ .absent → b ∈ s.src
+  s2 : ∀ b m, (b, m) ∈ s.needs → b ∈ s.src
   seenSrc : ∀ b ∈ seen, b ∈ s.src
 
 theorem Inv.weaken {W : World} {ver : Nat} {s : State} {seen seen' : List Ref} {skip : Option Ref}
@@ -805,6 +806,10 @@ theorem inv_receive_fetchmiss {W : World} {ver : Nat} {s : State} {seen : List R
       j4c := fun x hx => h.j4c x (by rw [← hstq]; exact hx)
       j4d := fun x t hx ht => by rw [hstq]; exact h.j4d x t (by rw [← hstq]; exact hx) ht
       s1 := fun x hx => h.s1 x (by rw [← hstq]; exact hx)
+      s2 := fun x y hxy => by
+        rcases (hmem _).mp hxy with h1 | h1
+        · exact h.s2 x y h1
+        · obtain ⟨rfl, rfl⟩ := Prod.mk.inj h1; exact hb
       seenSrc := ?_ }
   · intro x y
     rw [hstq, hrows, ins_missing_get, h.r3 x y]
@@ -956,6 +961,7 @@ theorem inv_receive_commit_full {W : World} {ver : Nat} {s : State} {seen : List
       schema := by rw [F2 _ rfl, c5]; exact h.schema
       r2 := R2_congr W _ _ F2 c3
       r3 := ?_, j3 := ?_, j2 := ?_, irr := fun x hx => h.irr x ((F4 _).mp hx).1
+      s2 := fun x y hxy => by rw [F7]; exact h.s2 x y ((F4 _).mp hxy).1
       j1 := ?_, j4a := ?_, j4b := ?_, j4c := ?_, j4d := ?_, s1 := ?_, seenSrc := ?_ }
   · intro x y
     rw [F3, h.r3 x y]
@@ -1091,7 +1097,12 @@ theorem inv_receive_commit_half {W : World} {ver : Nat} {s : State} {seen : List
       schema := by rw [G2 _ rfl, c5, hsame0 _ rfl]; exact h.schema
       r2 := R2_congr W _ _ G2 c3
       r3 := ?_, j3 := ?_, j2 := ?_, irr := ?_, j1 := ?_, j4a := ?_, j4b := ?_, j4c := ?_, j4d := ?_
-      s1 := ?_, seenSrc := ?_ }
+      s1 := ?_, seenSrc := ?_
+      s2 := fun x y hxy => by
+        rw [hsrc]
+        rcases ((N x y).mp hxy).1 with h1 | ⟨h1, _⟩
+        · exact h.s2 x y h1
+        · rw [h1]; exact hb }
   · intro x y
     rw [M, h.r3 x y]
     simp only [N]
@@ -1666,5 +1677,190 @@ theorem mirrors_receive {W : World} {ver : Nat} {s : State} {seen : List Ref} {s
     obtain ⟨a1, a2, a3⟩ := commit_shape s s b (rowsFor W .full b) (SMap.get s.rows (kHave b)).isSome
       h.kasc h.j3 (fun _ _ => rfl) rfl rfl true
     exact mirrors_commit h.r2 hc hd hst (by simp) a1 a2 a3
+
+/-! ### the other steps -/
+
+def AllInv (W : World) (ver : Nat) (s : State) (seen : List Ref) : Prop :=
+  Inv W ver s seen none ∧ CorpusOk s ∧ DelOk s
+
+theorem inv_src_mono {W : World} {ver : Nat} {s : State} {seen : List Ref} {skip : Option Ref}
+    (h : Inv W ver s seen skip) (src' : List Ref) (hs : ∀ x ∈ s.src, x ∈ src') :
+    Inv W ver { s with src := src' } seen skip :=
+  { h with
+    j4a := fun b m hbm hst => by
+      obtain ⟨pre, post, e, hp⟩ := h.j4a b m hbm hst
+      exact ⟨pre, post, e, fun x hx => hs x (hp x hx)⟩
+    j4c := fun b hb => firstMissing_mono W s.src src' b hs (h.j4c b hb)
+    s1 := fun b hb => hs b (h.s1 b hb)
+    s2 := fun b m hbm => hs b (h.s2 b m hbm)
+    seenSrc := fun b hb => hs b (h.seenSrc b hb) }
+
+theorem allInv_srcAdd {W : World} {ver : Nat} {s : State} {seen : List Ref} (h : AllInv W ver s seen) (b : Ref) :
+    AllInv W ver (s.srcAdd b) seen := by
+  unfold State.srcAdd
+  split
+  · exact h
+  · exact ⟨inv_src_mono h.1 _ (fun x hx => by simp [hx]), h.2.1, h.2.2⟩
+
+theorem allInv_receive {W : World} {ver : Nat} {s : State} {seen : List Ref} (hW : WF W) (h : AllInv W ver s seen)
+    (b : Ref) (hb : b ∈ s.src) : AllInv W ver (s.receive W b) (b :: seen) :=
+  ⟨inv_receive hW (h.1.weaken (fun _ hx => hx)) h.2.1 hb, mirrors_receive hW h.1 h.2.1 h.2.2 b⟩
+
+theorem allInv_reidx {W : World} {ver : Nat} {s : State} {seen : List Ref} (hW : WF W) (h : AllInv W ver s seen)
+    (b : Ref) : AllInv W ver (s.reidx W b) seen := by
+  unfold State.reidx
+  split
+  · rename_i hc
+    simp only [Bool.and_eq_true, List.contains_iff_mem] at hc
+    have h0 : Inv W ver { s with ready := s.ready.filter (fun x => x != b) } seen (some b) :=
+      { h.1 with
+        j1 := fun x hx hne hst => by
+          have e : x ≠ b := fun e => hne (by rw [e])
+          rcases h.1.j1 x hx (by simp) hst with h1 | h1
+          · exact Or.inl h1
+          · exact Or.inr (by simp [List.mem_filter, h1, e]) }
+    have hI := inv_receive hW h0 h.2.1 hc.2
+    have hM := mirrors_receive hW h0 h.2.1 h.2.2 b
+    exact ⟨hI.weaken (fun x hx => List.mem_cons_of_mem _ hx), hM⟩
+  · exact h
+
+theorem missOfRow_some (r : Row) (h n : Ref) : missOfRow r = some (h, n) ↔ r.1 = kMissing h n := by
+  obtain ⟨k, v⟩ := r
+  unfold missOfRow
+  split
+  · rename_i h' n' v' heq
+    obtain ⟨rfl, rfl⟩ := Prod.mk.inj heq
+    simp [kMissing]
+  · rename_i hne
+    constructor
+    · intro hh; cases hh
+    · intro hh
+      simp only at hh
+      exact (hne h n v (by rw [hh]; rfl)).elim
+
+theorem mem_missingPairs (l : List Row) (h n : Ref) :
+    (h, n) ∈ missingPairs l ↔ (SMap.get l (kMissing h n)).isSome = true := by
+  unfold missingPairs
+  rw [List.mem_filterMap]
+  constructor
+  · rintro ⟨⟨k, v⟩, hr, hd⟩
+    have := (missOfRow_some (k, v) h n).mp hd
+    simp only at this; subst this
+    exact get_isSome_of_mem hr
+  · intro hh
+    cases hg : SMap.get l (kMissing h n) with
+    | none => rw [hg] at hh; cases hh
+    | some v => exact ⟨(kMissing h n, v), get_some_mem hg, (missOfRow_some _ h n).mpr rfl⟩
+
+theorem COk_load (rows : SMap Bytes) (hk : KAsc rows) : COk rows (Corpus.load rows) := by
+  refine ⟨rfl, kasc_filter _ hk, ?_, fun d => Iff.rfl⟩
+  intro k
+  exact get_filter_key slurped hk k
+
+theorem reopen_nonempty (ver : Nat) (rows : SMap Bytes) (src : List Ref) (c : Bool) (h : rows ≠ []) :
+    reopen ver rows src c =
+      { rows := rows, src := src, needs := missingPairs rows,
+        neededBy := (missingPairs rows).map (fun p => (p.2, p.1)), ready := [],
+        deletes := delsOfRows rows, corpus := if c then some (Corpus.load rows) else none } := by
+  unfold reopen
+  have : rows.isEmpty = false := by cases rows <;> simp_all
+  simp [this]
+
+theorem allInv_restart {W : World} {ver : Nat} {s : State} {seen : List Ref} (h : AllInv W ver s seen)
+    (hq : s.ready = []) : AllInv W ver (s.restart ver) seen := by
+  have hne : s.rows ≠ [] := by
+    intro e
+    have := h.1.schema
+    rw [e] at this; simp [SMap.get] at this
+  unfold State.restart
+  rw [reopen_nonempty ver s.rows s.src _ hne]
+  have hmem : ∀ b m, (b, m) ∈ missingPairs s.rows ↔ ((b, m) ∈ s.needs ∧ stOf W s.rows b ≠ .full) := by
+    intro b m
+    rw [mem_missingPairs, h.1.r3 b m]
+    by_cases e : (b, m) ∈ s.needs ∧ stOf W s.rows b ≠ .full
+    · simp [e]
+    · simp [e]
+  refine ⟨?_, ?_, fun d => Iff.rfl⟩
+  · exact
+      { kasc := h.1.kasc, schema := h.1.schema, r2 := h.1.r2
+        r3 := fun b m => by
+          rw [h.1.r3 b m]
+          show _ = if (b, m) ∈ missingPairs s.rows ∧ _ then _ else _
+          simp only [hmem]
+          by_cases e : (b, m) ∈ s.needs ∧ stOf W s.rows b ≠ .full
+          · rw [if_pos e, if_pos ⟨e, e.2⟩]
+          · rw [if_neg e, if_neg (fun hh => e hh.1)]
+        j3 := fun b m => by
+          show (m, b) ∈ (missingPairs s.rows).map (fun p => (p.2, p.1)) ↔ (b, m) ∈ missingPairs s.rows
+          rw [List.mem_map]
+          constructor
+          · rintro ⟨⟨x, y⟩, hp, e⟩
+            obtain ⟨rfl, rfl⟩ := Prod.mk.inj e
+            exact hp
+          · intro hp; exact ⟨(b, m), hp, rfl⟩
+        j2 := fun b m hbm => h.1.j2 b m ((hmem b m).mp hbm).1
+        irr := fun b hb => h.1.irr b ((hmem b b).mp hb).1
+        j1 := fun b hb _ hst => by
+          rcases h.1.j1 b hb (by simp) hst with ⟨m, hm⟩ | h1
+          · exact Or.inl ⟨m, (hmem b m).mpr ⟨hm, hst⟩⟩
+          · rw [hq] at h1; cases h1
+        j4a := fun b m hbm hst => h.1.j4a b m ((hmem b m).mp hbm).1 hst
+        j4b := fun b m hbm hst => h.1.j4b b m ((hmem b m).mp hbm).1 hst
+        j4c := h.1.j4c, j4d := h.1.j4d, s1 := h.1.s1, seenSrc := h.1.seenSrc
+        s2 := fun b m hbm => h.1.s2 b m ((hmem b m).mp hbm).1 }
+  · intro c hc
+    cases hcs : s.corpus.isSome with
+    | false => rw [hcs] at hc; simp at hc
+    | true =>
+      rw [hcs] at hc
+      simp only [if_true] at hc
+      rw [← Option.some.inj hc]
+      exact COk_load s.rows h.1.kasc
+
+theorem allInv_init (W : World) (ver : Nat) (c : Bool) : AllInv W ver (State.init ver c) [] := by
+  unfold State.init
+  have hrows : (reopen ver [] [] c).rows = [schemaRow ver] := rfl
+  have hst : ∀ b, stOf W [schemaRow ver] b = .absent := by
+    intro b; simp [stOf, SMap.get, schemaRow, kSchema, kHave]
+  have hget : ∀ k, k ≠ kSchema → SMap.get [schemaRow ver] k = none := by
+    intro k hk; simp [SMap.get, schemaRow, hk]
+  refine ⟨?_, ?_, fun d => Iff.rfl⟩
+  · exact
+      { kasc := by rw [hrows]; simp [KAsc, schemaRow]
+        schema := by rw [hrows]; simp [SMap.get, schemaRow]
+        r2 := by
+          rw [hrows]
+          intro k v _ hs
+          rw [hget k hs]
+          constructor
+          · intro hh; cases hh
+          · rintro ⟨b, hb⟩; rw [hst b] at hb; simp [rowsFor, SMap.get] at hb
+        r3 := fun b m => by
+          rw [hrows, hget _ (by simp [kMissing, kSchema])]
+          have : (reopen ver [] [] c).needs = [] := rfl
+          rw [this]; simp
+        j3 := fun b m => by
+          have h1 : (reopen ver [] [] c).needs = [] := rfl
+          have h2 : (reopen ver [] [] c).neededBy = [] := rfl
+          rw [h1, h2]; simp
+        j2 := fun b m hbm => by have : (reopen ver [] [] c).needs = [] := rfl; rw [this] at hbm; cases hbm
+        irr := fun b hb => by have : (reopen ver [] [] c).needs = [] := rfl; rw [this] at hb; cases hb
+        j1 := fun b hb => by cases hb
+        j4a := fun b m hbm => by have : (reopen ver [] [] c).needs = [] := rfl; rw [this] at hbm; cases hbm
+        j4b := fun b m hbm => by have : (reopen ver [] [] c).needs = [] := rfl; rw [this] at hbm; cases hbm
+        j4c := fun b hb => by rw [hrows, hst b] at hb; exact absurd rfl hb
+        j4d := fun b t hb => by rw [hrows, hst b] at hb; cases hb
+        s1 := fun b hb => by rw [hrows, hst b] at hb; exact absurd rfl hb
+        s2 := fun b m hbm => by have : (reopen ver [] [] c).needs = [] := rfl; rw [this] at hbm; cases hbm
+        seenSrc := fun b hb => by cases hb }
+  · intro cc hc
+    have : (reopen ver [] [] c).corpus = if c then some (Corpus.load [schemaRow ver]) else none := rfl
+    rw [this] at hc
+    cases c with
+    | false => simp at hc
+    | true =>
+      simp only [if_true] at hc
+      rw [← Option.some.inj hc, hrows]
+      exact COk_load _ (by simp [KAsc, schemaRow])
 
 end Pk.Index
